@@ -12,8 +12,13 @@ AST (python tuples, mirrors coq/Fix/Printer.v):
           | ("SEQUENCE",[member])|("SET",[member])|("CHOICE",[member])
           | ("SEQUENCE OF",constr|None,texpr)|("SET OF",constr|None,texpr)|("REF",Name)
   member  = ("c",id,texpr,marker)|("ext",)      marker = None|("OPT",)|("DEF",("int",z)|("bool",b))
-  constr  = ("val",z)|("range",lo,hi)|("ext",)|("size",constr)|("uni",[c])|("int",[c])|("csv",[c])|("set",[c])
-            lo = "MIN"|int, hi = "MAX"|int
+  constr  = ("val",z|value)|("range",lo,hi)|("ext",)|("size",constr)|("uni",[c])|("int",[c])|("csv",[c])|("set",[c])
+          | ("ctype", Module|None, Name)          contained subtype by reference: (INCLUDES T) / (T) / (M.T)
+            lo = "MIN"|int|value, hi = "MAX"|int|value
+  value   = int | ("int",z)|("null",)|("bool",b)|("bits","0101..")|("str",text)|("real",neg,ip,fp6)|("ref",id)|("ref2",Module,id)
+  nval    = int | ("ref",id) | ("ref2",Module,id)        named numbers, ENUMERATED values, exception spec
+  a module's "assigns" holds type assignments (Name, texpr) and value assignments (name, texpr, value);
+  a member ("ext", nval) is `...!nval`; ty ("REAL",) ; marker ("DEF", value)
 """
 
 WORDS = ["alpha", "beta", "gamma", "delta", "kappa", "lambda", "omega", "sigma", "theta", "zeta", "node", "leaf", "item",
@@ -68,7 +73,13 @@ class Gen:
             return ("set", [self.ess(depth - 1, nonneg)])
         a = self.r.range(0, 40) if nonneg else self.z()
         if k <= 3:
+            if not nonneg:
+                a = self.vref("int", False, (1, 5)) or a      # value reference as a single value
             return ("val", a)
+        # a value reference as upper end point: the referenced values lie above the literal lower end points
+        vr = self.vref("nat", True, (1, 4)) if nonneg else self.vref("big", True, (1, 5))
+        if vr:
+            return ("range", self.r.range(0, 20) if nonneg else self.r.range(-50, 900), vr)
         b = a + self.r.range(0, 50)
         lo, hi = a, b
         if not nonneg and self.r.chance(1, 6):
@@ -123,6 +134,104 @@ class Gen:
             return (self.r.choice(["uni", "int"]), es)
         return ("set", [self.spec(0, True, mk)])
 
+    # ---- values (self.vals: value assignments visible so far: kind -> [name]; self.modname)
+    vals = None
+    modname = None
+    inttypes = None
+
+    def vref(self, kind, qual=True, p=(1, 3)):
+        """a reference to an earlier value assignment of that kind, or None.  qual: `Module.value` may be
+        used (asn1c's grammar refuses it as a single value and as a lower end point: `(M.v)`, `(M.v..9)`
+        are syntax errors, `(1..M.v)` and `DEFAULT M.v` are accepted)"""
+        if not self.vals or not self.vals.get(kind) or not self.r.chance(*p):
+            return None
+        n = self.r.choice(self.vals[kind])
+        if qual and self.modname and self.r.chance(1, 4):
+            return ("ref2", self.modname, n)
+        return ("ref", n)
+
+    def bits(self, octets=None):
+        """directed lengths first: 1..7 (bstring), 8/16/24 (hstring), 9, 12 (an hstring source with three
+        digits is a bstring in print), all 16 hexadecimal digits"""
+        if octets is None:
+            octets = self.r.chance(1, 2)
+        if octets:
+            k = self.r.below(6)
+            if k == 0:
+                nib = list("0123456789ABCDEF")
+                nib = self.r.shuffle(nib)[:2 * self.r.range(1, 8)]
+            elif k == 1:
+                nib = [self.r.choice("ABCDEF") for _ in range(2 * self.r.range(1, 4))]
+            else:
+                nib = [self.r.choice("0123456789ABCDEF") for _ in range(2 * self.r.range(1, 6))]
+            return ("bits", "".join(format(int(c, 16), "04b") for c in nib))
+        n = self.r.choice([1, 2, 3, 4, 5, 6, 7, 9, 12, 15, 17, 20, 31, self.r.range(1, 40)])
+        return ("bits", "".join(self.r.choice("01") for _ in range(n)))
+
+    def cstr(self):
+        k = self.r.below(6)
+        if k == 0:
+            return ("str", "")
+        pool = ["a", "b", "Z", "0", " ", "\"", "\"", "-", "x y", "it", "()", "--", "'", ",", "{", "}", "|", "::="]
+        return ("str", "".join(self.r.choice(pool) for _ in range(self.r.range(1, 6))))
+
+    def real(self):
+        k = self.r.below(6)
+        if k == 0:
+            ip, fp = "0", "0"
+        elif k == 1:
+            ip, fp = str(self.r.range(0, 9)), str(self.r.range(0, 999999)).rjust(6, "0")
+        elif k == 2:
+            ip, fp = str(self.r.range(0, 999999999)), str(self.r.range(0, 999999)).rjust(6, "0")
+        else:
+            ip, fp = str(self.r.range(0, 500)), self.r.choice(["5", "25", "125", "0", "75", "001", "000001", "999999"])
+        return ("real", self.r.chance(1, 3), ip, fp.ljust(6, "0"))
+
+    def intval(self):
+        return self.vref("int") or self.z(-1000, 1000)
+
+    def value_for(self, tyk, ty=None, qual=True):
+        """a value of the kind the type takes (so that the semantic pass accepts most modules)"""
+        if tyk == "INTEGER":
+            if ty and ty[1] and self.r.chance(1, 2):
+                return ("ref", self.r.choice(ty[1])[0])          # a named number
+            return self.vref("int", qual) or self.r.choice([self.z(-1000, 1000), self.z(), 9223372036854775807, -9223372036854775807])
+        if tyk == "BOOLEAN":
+            return self.vref("bool", qual) or ("bool", self.r.chance(1, 2))
+        if tyk == "NULL":
+            return ("null",)
+        if tyk == "OCTET STRING":
+            return self.vref("oct", qual) or self.bits(True)
+        if tyk == "BIT STRING":
+            return self.vref("bit", qual) or self.bits()
+        if tyk in ("IA5String", "UTF8String"):
+            return self.vref("str", qual) or self.cstr()
+        if tyk == "REAL":
+            return self.vref("real", qual) or self.real()
+        if tyk == "ENUMERATED":
+            ids = [it[1] for it in ty[1] if it[0] == "i"]
+            return ("ref", self.r.choice(ids))
+        return None
+
+    def value_constr(self, tyk):
+        """single-value / value-range constraints over values of the type's kind"""
+        n = 1 if self.r.chance(1, 2) else self.r.range(2, 3)
+        es = []
+        for _ in range(n):
+            if tyk == "REAL" and self.r.chance(1, 2):
+                a, b = self.real(), self.real()
+                fa = (-1 if a[1] else 1) * float(a[2] + "." + a[3])
+                fb = (-1 if b[1] else 1) * float(b[2] + "." + b[3])
+                if fa > fb:
+                    a, b = b, a
+                es.append(("range", "MIN" if self.r.chance(1, 6) else a, "MAX" if self.r.chance(1, 6) else b))
+            else:
+                es.append(("val", self.value_for(tyk, None, False)))
+        c = es[0] if n == 1 else ("uni", es)
+        if self.r.chance(1, 8):
+            c = ("csv", [c, ("ext",)])
+        return ("set", [c])
+
     # ---- types
     def named_numbers(self, nonneg):
         used, vals, out = set(), set(), []
@@ -132,6 +241,10 @@ class Gen:
                 continue
             vals.add(v)
             out.append((self.ident(used), v))
+        if not nonneg and self.vals and self.vals.get("big") and self.r.chance(1, 3):
+            # a named number given by a value reference (`DefinedValue`); the referenced values are
+            # kept apart from the literal ones (>= 1000) so that named numbers stay distinct
+            out.append((self.ident(used), ("ref", self.r.choice(self.vals["big"]))))
         return out
 
     def enum_items(self):
@@ -142,31 +255,43 @@ class Gen:
         for _ in range(n):
             out.append(("i", self.ident(used), v if explicit else None))
             v += self.r.range(1, 4)
+        if explicit and self.vals and self.vals.get("big") and self.r.chance(1, 4):
+            out.append(("i", self.ident(used), ("ref", self.r.choice(self.vals["big"]))))
         if self.r.chance(1, 3):
             k = self.r.range(1, len(out))
             out.insert(k, ("ext",))
         return out
 
     def leaf(self):
-        k = self.r.below(12)
+        k = self.r.below(13)
         if k == 0:
             return (None, ("BOOLEAN",), None)
         if k == 1:
             return (None, ("NULL",), None)
         if k <= 4:
             nn = self.named_numbers(False) if self.r.chance(1, 4) else []
-            return (None, ("INTEGER", nn), self.int_constr() if self.r.chance(2, 3) else None)
+            c = self.int_constr() if self.r.chance(2, 3) else None
+            if self.inttypes and self.r.chance(1, 5):
+                # contained subtype by reference, alone or in a union with values
+                ct = ("ctype", self.modname if self.modname and self.r.chance(1, 4) else None, self.r.choice(self.inttypes))
+                c = ("set", [ct if self.r.chance(1, 2) else ("uni", [ct, ("range", 1000, 1000 + self.r.range(0, 50))])])
+            return (None, ("INTEGER", nn), c)
         if k == 5:
-            return (None, ("OCTET STRING",), self.size_constr() if self.r.chance(1, 2) else None)
+            c = self.size_constr() if self.r.chance(1, 2) else (self.value_constr("OCTET STRING") if self.r.chance(1, 2) else None)
+            return (None, ("OCTET STRING",), c)
         if k == 6:
             nn = self.named_numbers(True) if self.r.chance(1, 2) else []
-            return (None, ("BIT STRING", nn), self.size_constr() if self.r.chance(1, 3) else None)
+            c = self.size_constr() if self.r.chance(1, 3) else (self.value_constr("BIT STRING") if self.r.chance(1, 4) and not nn else None)
+            return (None, ("BIT STRING", nn), c)
         if k == 7:
             return (None, ("ENUMERATED", self.enum_items()), None)
         if k == 8:
-            return (None, ("IA5String",), self.size_constr() if self.r.chance(1, 2) else None)
+            c = self.size_constr() if self.r.chance(1, 2) else (self.value_constr("IA5String") if self.r.chance(1, 2) else None)
+            return (None, ("IA5String",), c)
         if k == 9:
             return (None, ("UTF8String",), self.size_constr() if self.r.chance(1, 3) else None)
+        if k == 10:
+            return (None, ("REAL",), self.value_constr("REAL") if self.r.chance(1, 2) else None)
         return None
 
     def texpr(self, depth, refs, automatic):
@@ -234,46 +359,133 @@ class Gen:
                 k = self.r.below(6)
                 if k == 0:
                     mk = ("OPT",)
-                elif k == 1 and t[1][0] == "INTEGER" and not t[1][1]:
-                    mk = ("DEF", ("int", self.z(-1000, 1000)))
-                elif k == 1 and t[1][0] == "BOOLEAN":
-                    mk = ("DEF", ("bool", self.r.chance(1, 2)))
+                elif k <= 2:
+                    dv = self.value_for(t[1][0], t[1])
+                    if dv is not None:
+                        mk = ("DEF", dv)
             ms.append(("c", self.ident(used), t, mk))
         if self.r.chance(1, 3):
             k = self.r.range(1 if kind == "CHOICE" and ms else 0, len(ms))
-            ms.insert(k, ("ext",))
+            x = ("ext",)
+            if self.r.chance(1, 4):        # exception spec: `...!5`, `...!-1`, `...!v`
+                x = ("ext", self.vref("int") or self.r.range(-5, 60))
+            ms.insert(k, x)
             if self.r.chance(1, 4) and k < len(ms) - 1:
                 ms.insert(self.r.range(k + 2, len(ms)), ("ext",))
         return ms
 
-    def module(self, name, nass=None, ext_refs=()):
+    def value_assign(self, used):
+        """a value assignment of one of the modelled kinds; registers the name for later references"""
+        k = self.r.below(9)
+        nm = "v" + self.ident(used)
+        while nm in used:
+            nm += "x"
+        used.add(nm)
+        kind, tyk = [("int", "INTEGER"), ("int", "INTEGER"), ("big", "INTEGER"), ("bool", "BOOLEAN"), ("oct", "OCTET STRING"),
+                     ("bit", "BIT STRING"), ("str", "IA5String"), ("real", "REAL"), ("nat", "INTEGER")][k]
+        if kind == "big":
+            v = self.r.range(1000, 30000)
+        elif kind == "nat":
+            v = self.r.range(21, 60)
+        elif kind == "int" and self.vals.get("int") and self.r.chance(1, 4):
+            v = ("ref", self.r.choice(self.vals["int"]))          # value reference chain
+        else:
+            v = self.value_for(tyk)
+        ty = (tyk,) if tyk not in ("INTEGER", "BIT STRING") else (tyk, [])
+        t = (None, ty, None)
+        if tyk == "INTEGER" and self.inttypes and self.r.chance(1, 5):
+            t = (None, ("REF", self.r.choice(self.inttypes)), None)
+        self.vals.setdefault(kind, []).append(nm)
+        return (nm, t, v)
+
+    def module(self, name, nass=None, ext_refs=(), values=True):
         tagdef = self.r.choice(["AUTOMATIC", "AUTOMATIC", "", "EXPLICIT", "IMPLICIT"])
         automatic = tagdef == "AUTOMATIC"
         used = set()
         assigns, refs = [], list(ext_refs)
-        for _ in range(nass or self.r.range(1, 2 + self.size)):
+        self.vals, self.modname, self.inttypes = ({} if values else None), name, []
+        n = nass or self.r.range(1, 2 + self.size)
+        if values:
+            for _ in range(self.r.range(0, 3)):
+                assigns.append(self.value_assign(used))
+        for _ in range(n):
             nm = self.tname(used)
             t = self.texpr(2, refs, automatic)
             if self.r.chance(1, 6):
                 t = self.tag_for(t, self.r.choice("AP"))
             assigns.append((nm, t))
             refs.append(nm)
+            if t[1][0] == "INTEGER" and t[0] is None and not t[1][1] and t[2] is not None and not constr_has(t[2], "ctype"):
+                self.inttypes.append(nm)
+            if values and self.r.chance(1, 4):
+                assigns.append(self.value_assign(used))
+        self.vals, self.inttypes = None, None
         return {"name": name, "tagdef": tagdef, "extimpl": self.r.chance(1, 8), "assigns": assigns}
+
+
+def constr_has(c, kind):
+    if c is None:
+        return False
+    if c[0] == kind:
+        return True
+    if c[0] == "size":
+        return constr_has(c[1], kind)
+    if c[0] in ("uni", "int", "csv", "set"):
+        return any(constr_has(e, kind) for e in c[1])
+    return False
 
 
 # ---------------------------------------------------------------------------
 # rendering an AST to tokens (what a user could have written)
 
-def tok_value(z):
-    return str(z)
+def as_value(v):
+    return ("int", v) if isinstance(v, int) else v
+
+
+def toks_value(v, alt=lambda a, b: a):
+    """the lexemes of a value as a user could have written them (alt picks among spellings)"""
+    v = as_value(v)
+    k = v[0]
+    if k == "int":
+        return [str(v[1])]
+    if k == "null":
+        return ["NULL"]
+    if k == "bool":
+        return ["TRUE" if v[1] else "FALSE"]
+    if k == "bits":
+        b = v[1]
+        if len(b) % 4 == 0 and alt(True, False):
+            body, sfx = "".join("%X" % int(b[i:i + 4], 2) for i in range(0, len(b), 4)), "H"
+        else:
+            body, sfx = b, "B"
+        if len(body) > 3 and alt(False, True):       # blanks and newlines are permitted inside
+            i = len(body) // 2
+            body = body[:i] + alt(" ", "\n  ") + body[i:]
+        return ["'" + body + "'" + sfx]
+    if k == "str":
+        return ['"' + v[1].replace('"', '""') + '"']
+    if k == "real":
+        fp = v[3].rstrip("0") or "0"
+        return [("-" if v[1] else alt("", "+")) + v[2] + "." + fp]
+    if k == "ref":
+        return [v[1]]
+    if k == "ref2":
+        return [v[1] + "." + v[2]]
+    raise ValueError(k)
+
+
+def toks_endpoint(e, alt):
+    return [e] if e in ("MIN", "MAX") else toks_value(e, alt)
 
 
 def toks_constr(c, alt):
     k = c[0]
     if k == "val":
-        return [str(c[1])]
+        return toks_value(c[1], alt)
+    if k == "ctype":
+        return ([] if alt(True, False) else ["INCLUDES"]) + [(c[1] + "." if c[1] else "") + c[2]]
     if k == "range":
-        return [str(c[1]), "..", str(c[2])]
+        return toks_endpoint(c[1], alt) + [".."] + toks_endpoint(c[2], alt)
     if k == "ext":
         return ["..."]
     if k == "size":
@@ -302,7 +514,7 @@ def toks_texpr(t, alt):
     tag, ty, c = t
     out = toks_tag(tag) if tag else []
     k = ty[0]
-    if k in ("BOOLEAN", "NULL", "IA5String", "UTF8String"):
+    if k in ("BOOLEAN", "NULL", "IA5String", "UTF8String", "REAL"):
         out.append(k)
     elif k == "OCTET STRING":
         out += ["OCTET", "STRING"]
@@ -313,7 +525,7 @@ def toks_texpr(t, alt):
             for i, (n, v) in enumerate(ty[1]):
                 if i:
                     out.append(",")
-                out += [n, "(", str(v), ")"]
+                out += [n, "("] + toks_value(v, alt) + [")"]
             out.append("}")
     elif k == "ENUMERATED":
         out += [k, "{"]
@@ -325,7 +537,7 @@ def toks_texpr(t, alt):
             else:
                 out.append(it[1])
                 if it[2] is not None:
-                    out += ["(", str(it[2]), ")"]
+                    out += ["("] + toks_value(it[2], alt) + [")"]
         out.append("}")
     elif k in ("SEQUENCE", "SET", "CHOICE"):
         out += [k, "{"]
@@ -334,6 +546,8 @@ def toks_texpr(t, alt):
                 out.append(",")
             if m[0] == "ext":
                 out.append("...")
+                if len(m) > 1:
+                    out += ["!"] + toks_value(m[1], alt)
             else:
                 out.append(m[1])
                 out += toks_texpr(m[2], alt)
@@ -341,8 +555,7 @@ def toks_texpr(t, alt):
                     if m[3][0] == "OPT":
                         out.append("OPTIONAL")
                     else:
-                        d = m[3][1]
-                        out += ["DEFAULT", (str(d[1]) if d[0] == "int" else ("TRUE" if d[1] else "FALSE"))]
+                        out += ["DEFAULT"] + toks_value(m[3][1], alt)
         out.append("}")
     elif k in ("SEQUENCE OF", "SET OF"):
         out.append(k.split()[0])
@@ -375,8 +588,11 @@ def toks_module(m, alt=lambda a, b: a, imports=None):
                 out.append(n)
             out += ["FROM", frm]
         out.append(";")
-    for nm, t in m["assigns"]:
-        out += [nm, "::="] + toks_texpr(t, alt)
+    for a in m["assigns"]:
+        if len(a) == 2:
+            out += [a[0], "::="] + toks_texpr(a[1], alt)
+        else:
+            out += [a[0]] + toks_texpr(a[1], alt) + ["::="] + toks_value(a[2], alt)
     out.append("END")
     return out
 
@@ -400,8 +616,10 @@ def render(m, rng, imports=None):
             tight = False
         if t[0].isalnum() and nxt[0].isalnum():
             tight = False
-        if t[0] == "-" or nxt[0] == "-":      # negative number next to punctuation: keep a blank
+        if t[0] in "-+" or nxt[0] in "-+":      # signed number next to punctuation: keep a blank
             tight = False
+        if t == "!" or nxt == "!":
+            tight = True if rng.chance(1, 2) else tight
         if tight and (style == 0 or rng.chance(1, 2)):
             continue
         if style == 0:
@@ -428,12 +646,61 @@ def render(m, rng, imports=None):
 # ---------------------------------------------------------------------------
 # serialisation to the model driver's protocol (prefix form, blank separated)
 
+def ser_value(v, out):
+    v = as_value(v)
+    k = v[0]
+    if k == "int":
+        out += ["vi", str(v[1])]
+    elif k == "null":
+        out.append("vn")
+    elif k == "bool":
+        out.append("vt" if v[1] else "vf")
+    elif k == "bits":
+        out += ["vb", v[1]]
+    elif k == "str":
+        out += ["vs", v[1].encode("latin1").hex() or "-"]
+    elif k == "real":
+        out += ["vr", "1" if v[1] else "0", v[2], v[3]]
+    elif k == "ref":
+        out += ["v1", v[1]]
+    elif k == "ref2":
+        out += ["v2", v[1], v[2]]
+    else:
+        raise ValueError(k)
+
+
+def ser_nval(v, out):
+    v = as_value(v)
+    if v[0] == "int":
+        out += ["ni", str(v[1])]
+    elif v[0] == "ref":
+        out += ["n1", v[1]]
+    elif v[0] == "ref2":
+        out += ["n2", v[1], v[2]]
+    else:
+        raise ValueError(v[0])
+
+
+def ser_endpoint(e, out):
+    if e == "MIN":
+        out.append("m")
+    elif e == "MAX":
+        out.append("M")
+    else:
+        ser_value(e, out)
+
+
 def ser_constr(c, out):
     k = c[0]
     if k == "val":
-        out += ["v", str(c[1])]
+        out.append("v")
+        ser_value(c[1], out)
+    elif k == "ctype":
+        out += (["Y", c[1], c[2]] if c[1] else ["y", c[2]])
     elif k == "range":
-        out += ["r", "m" if c[1] == "MIN" else str(c[1]), "M" if c[2] == "MAX" else str(c[2])]
+        out.append("r")
+        ser_endpoint(c[1], out)
+        ser_endpoint(c[2], out)
     elif k == "ext":
         out.append("e")
     elif k == "size":
@@ -460,12 +727,13 @@ def ser_texpr(t, out):
     else:
         out += ["G", tag[0], str(tag[1]), {"": "D", "IMPLICIT": "I", "EXPLICIT": "E"}[tag[2]]]
     k = ty[0]
-    if k in ("BOOLEAN", "NULL", "OCTET STRING", "IA5String", "UTF8String"):
-        out.append({"BOOLEAN": "Tb", "NULL": "Tn", "OCTET STRING": "To", "IA5String": "Ta", "UTF8String": "Tu"}[k])
+    if k in ("BOOLEAN", "NULL", "OCTET STRING", "IA5String", "UTF8String", "REAL"):
+        out.append({"BOOLEAN": "Tb", "NULL": "Tn", "OCTET STRING": "To", "IA5String": "Ta", "UTF8String": "Tu", "REAL": "TR"}[k])
     elif k in ("INTEGER", "BIT STRING"):
         out += ["Ti" if k == "INTEGER" else "Tbs", str(len(ty[1]))]
         for n, v in ty[1]:
-            out += [n, str(v)]
+            out.append(n)
+            ser_nval(v, out)
     elif k == "ENUMERATED":
         out += ["Te", str(len(ty[1]))]
         for it in ty[1]:
@@ -474,12 +742,17 @@ def ser_texpr(t, out):
             elif it[2] is None:
                 out += ["J", it[1]]
             else:
-                out += ["I", it[1], str(it[2])]
+                out += ["I", it[1]]
+                ser_nval(it[2], out)
     elif k in ("SEQUENCE", "SET", "CHOICE"):
         out += [{"SEQUENCE": "Ts", "SET": "Tt", "CHOICE": "Tc"}[k], str(len(ty[1]))]
         for m in ty[1]:
             if m[0] == "ext":
-                out.append("E")
+                if len(m) > 1:
+                    out.append("Ex")
+                    ser_nval(m[1], out)
+                else:
+                    out.append("E")
             else:
                 out += ["C", m[1]]
                 ser_texpr(m[2], out)
@@ -487,10 +760,9 @@ def ser_texpr(t, out):
                     out.append("-")
                 elif m[3][0] == "OPT":
                     out.append("O")
-                elif m[3][1][0] == "int":
-                    out += ["Di", str(m[3][1][1])]
                 else:
-                    out += ["Db", "1" if m[3][1][1] else "0"]
+                    out.append("D")
+                    ser_value(m[3][1], out)
     elif k in ("SEQUENCE OF", "SET OF"):
         out.append("Tso" if k == "SEQUENCE OF" else "Tto")
         ser_copt(ty[1], out)
@@ -503,9 +775,11 @@ def ser_texpr(t, out):
 def ser_module(m):
     out = ["M", m["name"], {"": "N", "EXPLICIT": "E", "IMPLICIT": "I", "AUTOMATIC": "A"}[m["tagdef"]],
            "1" if m["extimpl"] else "0", str(len(m["assigns"]))]
-    for nm, t in m["assigns"]:
-        out.append(nm)
-        ser_texpr(t, out)
+    for a in m["assigns"]:
+        out += ["T" if len(a) == 2 else "W", a[0]]
+        ser_texpr(a[1], out)
+        if len(a) == 3:
+            ser_value(a[2], out)
     return " ".join(out)
 
 
@@ -547,7 +821,7 @@ def texpr_constrs(t):
 
 
 def module_has_deep_paren(m):
-    return any(constr_has_deep_paren(c) for _, t in m["assigns"] for c in texpr_constrs(t))
+    return any(constr_has_deep_paren(c) for a in m["assigns"] for c in texpr_constrs(a[1]))
 
 
 def wrap_parens(m, rng):
@@ -555,8 +829,10 @@ def wrap_parens(m, rng):
     extra pairs of parentheses (source `(((x)))`), or None if m has no suitable constraint"""
     import copy
     m2 = copy.deepcopy(m)
-    for i, (nm, t) in enumerate(m2["assigns"]):
-        tag, ty, c = t
+    for i, a in enumerate(m2["assigns"]):
+        if len(a) != 2:
+            continue
+        nm, (tag, ty, c) = a
         if c is not None and c[0] == "set" and len(c[1]) == 1 and c[1][0][0] not in ("csv", "ext", "set"):
             m2["assigns"][i] = (nm, (tag, ty, ("set", [("set", [("set", [c[1][0]])])])))
             return m2
@@ -607,7 +883,7 @@ def yacc_norm_texpr(t):
 
 def yacc_norm(m):
     m2 = dict(m)
-    m2["assigns"] = [(n, yacc_norm_texpr(t)) for n, t in m["assigns"]]
+    m2["assigns"] = [((a[0], yacc_norm_texpr(a[1])) if len(a) == 2 else (a[0], yacc_norm_texpr(a[1]), a[2])) for a in m["assigns"]]
     return m2
 
 
